@@ -14,7 +14,7 @@ from ..progmc.world import Prog
 
 P = "C14"
 COUNTS = [1, 2, 3, 5, 10, 40]
-FORMS = ["from", "attr", "import_as", "ext_facade"]
+FORMS = ["from", "attr", "import_as", "ext_facade", "local_import_full"]
 
 
 def make_spec(d, form):
